@@ -2,7 +2,7 @@
 # usage: tools/detect_seeds.sh <seed>...   every confirmed seeded change x its own property's quick check at the given seeds
 cd /verif
 for seed in "$@"; do
-  for d in seeded/C*-*; do
+  for d in seeded/C*-${ONLY:-*}; do
     id=$(basename $d); prop=${id%%-*}
     out=$(VERIF_SEED=$seed MAXLINES=3 tools/try_mutant_scratch.sh /verif/$d/patch.diff $prop quick 2>&1 | grep -E "exit=|signature=" | tr '\n' ' ' | cut -c1-230)
     echo "seed=$seed $id $out"
